@@ -114,10 +114,30 @@ def periods_of(hist):
 def frames_overlap_free(hist) -> bool:
     per = periods_of(hist)
     for fr in hist["frames"]:
+        if len(fr) > 60:
+            ra = np.asarray([r[-1] for r in fr], float)
+            G = pair_distances(fr, fr, per) - ra[:, None] - ra[None, :]
+            G[np.tril_indices(len(fr))] = np.inf
+            if np.any(G < 0):
+                return False
+            continue
         for a, b in itertools.combinations(fr, 2):
             if geom.distance(a[:-1], b[:-1], per) < a[-1] + b[-1]:
                 return False
     return True
+
+
+def pair_distances(fa, fb, per) -> np.ndarray:
+    """Matrix of (minimum-image) centre distances between the rows of two frames."""
+    if not fa or not fb:
+        return np.zeros((len(fa), len(fb)))
+    A = np.asarray([r[:-1] for r in fa], float)
+    B = np.asarray([r[:-1] for r in fb], float)
+    diff = B[None, :, :] - A[:, None, :]
+    for ax, L in enumerate(per):
+        if L is not None:
+            diff[..., ax] -= L * np.round(diff[..., ax] / L)
+    return np.sqrt(np.einsum("ijk,ijk->ij", diff, diff))
 
 
 def has_knife_edge(hist, tol=1e-9) -> bool:
@@ -132,6 +152,23 @@ def has_knife_edge(hist, tol=1e-9) -> bool:
     def near(x):
         return abs(x) <= tol and not (exact and x == 0.0)
 
+    if max((len(f) for f in frames), default=0) > 60:
+        # crowded frames: the same test on whole distance matrices
+        for i, fr in enumerate(frames):
+            ra = np.asarray([r[-1] for r in fr], float)
+            D = pair_distances(fr, fr, per)
+            G = np.abs(D - ra[:, None] - ra[None, :])
+            G[np.tril_indices(len(fr))] = np.inf
+            if np.any(G <= tol):
+                return True
+            if i + 1 < len(frames):
+                rb = np.asarray([r[-1] for r in frames[i + 1]], float)
+                D = pair_distances(fr, frames[i + 1], per)
+                if np.any(np.abs(D - ra[:, None] - rb[None, :]) <= tol):
+                    return True
+                if md is not None and math.isfinite(md) and np.any(np.abs(D - md) <= tol):
+                    return True
+        return False
     for i, fr in enumerate(frames):
         for a, b in itertools.combinations(fr, 2):
             d = geom.distance(a[:-1], b[:-1], per)
@@ -266,7 +303,17 @@ def check_identity(hist, indexed, rec):
     firsts = {members[0] for members in indexed if members and members[0] is not None}
     lasts = {members[-1] for members in indexed if members and members[-1] is not None}
 
+    crowded = max((len(f) for f in frames), default=0) > 60
+    _mats: dict = {}
+
     def dist(i, a, k, b):
+        if crowded:
+            m = _mats.get((i, k))
+            if m is None:
+                if len(_mats) >= 6:
+                    _mats.clear()
+                m = _mats[(i, k)] = pair_distances(frames[i], frames[k], per)
+            return float(m[a, b])
         return geom.distance(frames[i][a][:-1], frames[k][b][:-1], per)
 
     facts = {"competition": False, "cross": False}
@@ -315,7 +362,8 @@ def check_identity(hist, indexed, rec):
             # closest-pair clause
             pairs = [(dist(i, a, i + 1, b), a, b) for a in range(len(frames[i]))
                      for b in range(len(frames[i + 1]))]
-            ds = sorted(p[0] for p in pairs)
+            # (pairs beyond the cut-off are never joined, so ties among them decide nothing)
+            ds = sorted(p[0] for p in pairs if p[0] <= cutoff * (1 + 1e-9) + 1e-9)
             distinct = all(b - a > 1e-9 for a, b in zip(ds[:-1], ds[1:]))
             if len(frames[i]) >= 2 or len(frames[i + 1]) >= 2:
                 facts["competition"] = True
@@ -458,6 +506,8 @@ def random_history(rng, *, overlapping=False):
         return symmetric_grid_history(rng)
     dim = int(rng.choice([1, 2, 2, 3]))
     T = int(rng.integers(1, 9))
+    if rng.random() < 0.02:
+        T = 0  # a time course without any frame
     L = float(rng.uniform(6, 20))
     use_grid = bool(rng.random() < 0.5)
     periodic = [bool(rng.integers(0, 2)) for _ in range(dim)]
@@ -538,6 +588,42 @@ def random_history(rng, *, overlapping=False):
         cut = [None, None, float(rng.uniform(0.1, 3.0)), float("inf"), -1.0][int(rng.integers(5))]
     hist = {"dim": dim, "grid": grid, "times": times, "frames": frames, "method": method, "max_dist": cut}
     return rand_member_class(rng, hist)
+
+
+def crowd_history(rng):
+    """More than a thousand droplets per frame (a foam or a dense emulsion): a jittered 1-D line or 2-D lattice of
+    well separated droplets that persist, a few of which dissolve (also early ones) or nucleate."""
+    dim = int(rng.choice([1, 2]))
+    n = int(rng.integers(1040, 1300))
+    a = 4.0
+    if dim == 1:
+        base = np.arange(n, dtype=float)[:, None] * a
+    else:
+        nx = int(math.ceil(math.sqrt(n)))
+        base = np.array([[i * a, j * a] for i in range(nx) for j in range(nx)], float)[:n]
+    base = base + float(rng.choice([0.0, -1000.0, 12.5]))
+    radii = rng.uniform(0.4, 0.7, len(base))
+    T = int(rng.integers(2, 4))
+    alive = np.ones(len(base), bool)
+    pos = base + rng.uniform(-0.05, 0.05, base.shape)
+    frames = []
+    for t in range(T):
+        if t > 0:
+            pos = pos + rng.uniform(-0.2, 0.2, pos.shape)
+            for k in rng.choice(len(base), size=int(rng.integers(8, 20)), replace=False):
+                alive[int(k)] = False  # dissolved
+            alive[int(rng.integers(0, 30))] = False  # one of the first droplets as well
+        rows = [[float(x) for x in pos[i]] + [float(radii[i])] for i in range(len(base)) if alive[i]]
+        if t > 0 and rng.random() < 0.7:
+            rows.append([float(x) for x in (base[-1] + a * (1.5 + t))] + [0.5])  # nucleated beyond the end
+        if t == 0 or rng.random() < 0.5:
+            # (the order of the first frame is the order of the tracks: neighbours in space are far apart in that order)
+            order = rng.permutation(len(rows))
+            rows = [rows[int(i)] for i in order]
+        frames.append(rows)
+    method = "distance" if rng.random() < 0.8 else "overlap"
+    cut = [None, 1.5, 6.0, 6.0, float("inf")][int(rng.integers(5))] if method == "distance" else None
+    return {"dim": dim, "grid": None, "times": [float(t) for t in range(T)], "frames": frames, "method": method, "max_dist": cut}
 
 
 def exact_history(rng):
